@@ -228,6 +228,7 @@ INJECT = {
     "C11": ["rwlock"],
     "C12": ["rwlock"],
     "C14": ["mutex", "sem", "rwlock"],
+    "C15": ["mutex", "sem", "rwlock"],
     "C17": ["mutex", "sem", "rwlock", "once", "barrier"],
 }
 # runs per primitive: (prefix depth, number of injected calls, calls after the preempted one)
@@ -237,9 +238,13 @@ INJECT_BUDGET = {
     "thorough": {"mutex": [(4, 2, 0), (3, 2, 1)], "sem": [(3, 2, 0), (2, 2, 1)], "rwlock": [(3, 1, 0), (2, 1, 1)],
                  "once": [(4, 2, 0), (3, 1, 1)], "barrier": [(6, 2, 1)]},
 }
+# seeded random scenarios after the exhaustive ones: (count, longest prefix); and the deeper search
+# made only when a trace was rejected and no failing schedule is known yet
+INJECT_RANDOM = {"quick": (100000, 8), "thorough": (2000000, 10)}
+INJECT_SEARCH = (1500000, 10)
 
 LOOM = {
-    "C01": ["c01_try_lock", "c01_lock", "c05_three", "c01_blocking", "c05_starved", "c05_starved_held", "c05_barge"],
+    "C01": ["c01_try_lock", "c01_lock", "c01_arc", "c05_three", "c01_blocking", "c05_starved", "c05_starved_held", "c05_barge"],
     "C02": ["c02_try", "c02_upgrade", "c02_async", "c06_mix", "c11_downgrade_async", "c11_upgrade_async",
             "c02_blocking", "c11_blocking"],
     "C03": ["c03_add", "c03_excl", "c03_async", "c07_three", "c03_blocking", "c03_try_arc"],
